@@ -10,8 +10,8 @@
 (***************************************************************************)
 EXTENDS Find, TLC, Json, SequencesExt
 CONSTANTS MaxTr, EmitVec, EmitMod, EmitRem
-VARIABLES ph, z, za, pk    \* phase; zone (spec record); zone (wire arguments); probe second
-vars == <<ph, z, za, pk>>
+VARIABLES vPh, vZ, vZa, vPk    \* phase; zone (spec record); zone (wire arguments); probe second
+vars == <<vPh, vZ, vZa, vPk>>
 
 G(s) == CNorm(4, DBYTab[370], s)          \* second s of 1970-01-01
 Des(i) == <<64 + i, 64 + i, 64 + i>>
@@ -37,56 +37,56 @@ MkZA(times, menu, ixs, lp, rule) ==
    lp |-> [i \in 1..Len(lp) |-> <<CDSToW(G(lp[i].r)), lp[i].c>>],
    rule |-> rule, via |-> "owned"]
 
-Init == ph = 0 /\ z = UtcZone /\ za = <<>> /\ pk = 0
+Init == vPh = 0 /\ vZ = UtcZone /\ vZa = <<>> /\ vPk = 0
 PickZone ==
-  /\ ph = 0 /\ ph' = 1 /\ pk' = 0
+  /\ vPh = 0 /\ vPh' = 1 /\ vPk' = 0
   /\ \E S \in TimeSets : \E m \in 1..Len(Menus) : \E lp \in LeapTables :
        LET times == SortedSeq(S) menu == Menus[m] IN
        \E ixs \in [1..Len(times) -> 0..(Len(menu) - 1)] :
        \E rk \in {"none", "fixed"} :
          LET rule == IF rk = "none" THEN [k |-> "none"]
                      ELSE [k |-> "fixed", t |-> IF Len(times) = 0 THEN menu[1] ELSE menu[ixs[Len(times)] + 1]]
-         IN z' = MkZ(times, menu, ixs, lp, rule) /\ za' = MkZA(times, menu, ixs, lp, rule)
-Probe == /\ ph = 1 /\ ph' = 2 /\ pk' \in -7..14 /\ UNCHANGED <<z, za>>
+         IN vZ' = MkZ(times, menu, ixs, lp, rule) /\ vZa' = MkZA(times, menu, ixs, lp, rule)
+Probe == /\ vPh = 1 /\ vPh' = 2 /\ vPk' \in -7..14 /\ UNCHANGED <<vZ, vZa>>
 Next == PickZone \/ Probe
 Spec == Init /\ [][Next]_vars
 
 \* ------------------------------ theorems --------------------------------
-U == G(pk)
-RoundTrip == LET c == ClockAt(z, U) IN c[1] => <<U, c>> \in ValidInstants(z, CAddSec(U, c[2].off))
+U == G(vPk)
+RoundTrip == LET c == ClockAt(vZ, U) IN c[1] => <<U, c>> \in ValidInstants(vZ, CAddSec(U, c[2].off))
 LeapLaws ==
-  /\ CLe(ToLeap(z.lp, U), ToLeap(z.lp, CAddSec(U, 1)))                        \* monotone
-  /\ CLe(ToUnix(z.lp, U), ToUnix(z.lp, CAddSec(U, 1)))
-  /\ (~Deleted(z.lp, U) => ToUnix(z.lp, ToLeap(z.lp, U)) = U)                 \* round trip
-  /\ ToLeap(z.lp, ToUnix(z.lp, U)) \in {U, CAddSec(U, 1)}
-  /\ \A i \in 1..Len(z.lp) : Inserted(z.lp, i) => ToUnix(z.lp, z.lp[i].r) = ToUnix(z.lp, CAddSec(z.lp[i].r, 1))
-  /\ ~Deleted(z.lp, ToUnix(z.lp, U))
+  /\ CLe(ToLeap(vZ.lp, U), ToLeap(vZ.lp, CAddSec(U, 1)))                        \* monotone
+  /\ CLe(ToUnix(vZ.lp, U), ToUnix(vZ.lp, CAddSec(U, 1)))
+  /\ (~Deleted(vZ.lp, U) => ToUnix(vZ.lp, ToLeap(vZ.lp, U)) = U)                 \* round trip
+  /\ ToLeap(vZ.lp, ToUnix(vZ.lp, U)) \in {U, CAddSec(U, 1)}
+  /\ \A i \in 1..Len(vZ.lp) : Inserted(vZ.lp, i) => ToUnix(vZ.lp, vZ.lp[i].r) = ToUnix(vZ.lp, CAddSec(vZ.lp[i].r, 1))
+  /\ ~Deleted(vZ.lp, ToUnix(vZ.lp, U))
 \* the instant reported for a transition is the instant at which the forward lookup switches
-SwitchPoint == \A i \in 1..NTr(z) : LET tu == ToUnix(z.lp, z.tr[i].t) IN
-                  CLe(z.tr[i].t, ToLeap(z.lp, tu)) /\ CLt(ToLeap(z.lp, CAddSec(tu, -1)), z.tr[i].t)
-Bounded == Cardinality(ValidInstants(z, U)) <= Cardinality(ZoneOffsets(z))
+SwitchPoint == \A i \in 1..NTr(vZ) : LET tu == ToUnix(vZ.lp, vZ.tr[i].t) IN
+                  CLe(vZ.tr[i].t, ToLeap(vZ.lp, tu)) /\ CLt(ToLeap(vZ.lp, CAddSec(tu, -1)), vZ.tr[i].t)
+Bounded == Cardinality(ValidInstants(vZ, U)) <= Cardinality(ZoneOffsets(vZ))
 \* every local time whose candidates the zone covers is shown or lies in a gap
-Total == (\A u \in Candidates(z, U) : ClockAt(z, u)[1]) => (ValidInstants(z, U) # {} \/ Gaps(z, U) # {})
+Total == (\A u \in Candidates(vZ, U) : ClockAt(vZ, u)[1]) => (ValidInstants(vZ, U) # {} \/ Gaps(vZ, U) # {})
 \* the clock changes only at transition instants
 OnlyAtTransitions ==
-  LET a == ClockAt(z, CAddSec(U, -1)) b == ClockAt(z, U) IN
-  (a[1] /\ b[1] /\ a[2] # b[2]) => \E i \in 1..NTr(z) : ToUnix(z.lp, z.tr[i].t) = U \/ Deleted(z.lp, CAddSec(U, -1))
-Theorems == ph = 2 => (RoundTrip /\ LeapLaws /\ SwitchPoint /\ Bounded /\ Total /\ OnlyAtTransitions)
+  LET a == ClockAt(vZ, CAddSec(U, -1)) b == ClockAt(vZ, U) IN
+  (a[1] /\ b[1] /\ a[2] # b[2]) => \E i \in 1..NTr(vZ) : ToUnix(vZ.lp, vZ.tr[i].t) = U \/ Deleted(vZ.lp, CAddSec(U, -1))
+Theorems == vPh = 2 => (RoundTrip /\ LeapLaws /\ SwitchPoint /\ Bounded /\ Total /\ OnlyAtTransitions)
 
 \* ------------------------------ vectors ---------------------------------
 OutVec(out) == {[ok |-> v] : v \in out.ok} \cup {[err |-> e] : e \in out.err}
 Fields(L) == LET cv == Civil(L) IN [y |-> YInt(cv.c, cv.yic), mo |-> cv.mo, d |-> cv.d, h |-> cv.h, mi |-> cv.mi, s |-> cv.s, ns |-> 7]
 ExpectedFind(f) ==
-  LET exp == Expected(z, f, 7)
+  LET exp == Expected(vZ, f, 7)
       distinct == \A a, b \in exp : a # b => EntryInstant(a) # EntryInstant(b)
       list == SetToSortSeq(exp, LAMBDA a, b : WLt(EntryInstant(a), EntryInstant(b)))
       acc == AccessorsOf(list)
   IN IF distinct THEN {[ok |-> [list |-> list, unique |-> acc.unique, earliest |-> acc.earliest, latest |-> acc.latest]]} ELSE {}
-Emit == (EmitVec /\ ph = 2 /\ pk % EmitMod = EmitRem) =>
-  /\ PrintT(<<"VEC", ToJson([zk |-> za, op |-> "lookup", a |-> [u |-> CDSToW(U), via |-> IF pk % 2 = 0 THEN "ref" ELSE "owned"], x |-> OutVec(Lookup(z, U))])>>)
-  /\ PrintT(<<"VEC", ToJson([zk |-> za, op |-> "localtime", a |-> [u |-> CDSToW(U), ns |-> 3], x |-> OutVec(Localtime(z, U, 3))])>>)
+Emit == (EmitVec /\ vPh = 2 /\ vPk % EmitMod = EmitRem) =>
+  /\ PrintT(<<"VEC", ToJson([zk |-> vZa, op |-> "lookup", a |-> [u |-> CDSToW(U), via |-> IF vPk % 2 = 0 THEN "ref" ELSE "owned"], x |-> OutVec(Lookup(vZ, U))])>>)
+  /\ PrintT(<<"VEC", ToJson([zk |-> vZa, op |-> "localtime", a |-> [u |-> CDSToW(U), ns |-> 3], x |-> OutVec(Localtime(vZ, U, 3))])>>)
   /\ LET f == Fields(U) x == ExpectedFind(f) IN
-       IF x = {} THEN PrintT(<<"VEC", ToJson([zk |-> za, op |-> "find", a |-> f])>>)
-       ELSE PrintT(<<"VEC", ToJson([zk |-> za, op |-> "find", a |-> f, x |-> x])>>)
+       IF x = {} THEN PrintT(<<"VEC", ToJson([zk |-> vZa, op |-> "find", a |-> f])>>)
+       ELSE PrintT(<<"VEC", ToJson([zk |-> vZa, op |-> "find", a |-> f, x |-> x])>>)
 Inv == Theorems /\ Emit
 =============================================================================
